@@ -39,6 +39,15 @@ Theorem C07_src_set_state_is_model_set_state :
     src_set_state Ent (comp_addr Ent Pay c) (c_default c) (src_adapter_binds (c_binds c)) out st = set_state Ent Pay c st out.
 Proof. exact @src_set_state_is_set_state. Qed.
 
+Theorem C06_src_timer_is_model_timer :
+  forall (Pay Ent : Type) (clock0 : Ent) (spent : Ent -> Pay -> option Ent) (a : action Pay) (s : rst Ent Pay),
+    src_timer_call Pay Ent clock0 spent a s = timer_call Ent Pay clock0 spent a s.
+Proof. exact @src_timer_call_is_timer_call. Qed.
+
+Theorem C06_src_timer_includes_is_model_includes :
+  forall s : string, src_timer_includes s = timer_includes s.
+Proof. exact @src_timer_includes_is_timer_includes. Qed.
+
 Theorem C07_src_message_signature_is_model_msig :
   forall name method : string, src_message_signature name method = msig name method.
 Proof. exact @src_message_signature_is_msig. Qed.
@@ -58,6 +67,8 @@ Print Assumptions C07_src_find_mapping_name_is_model_find_mapping.
 Print Assumptions C07_src_bound_names_are_model_bound_names.
 Print Assumptions C07_src_get_state_is_model_get_state.
 Print Assumptions C07_src_set_state_is_model_set_state.
+Print Assumptions C06_src_timer_is_model_timer.
+Print Assumptions C06_src_timer_includes_is_model_includes.
 Print Assumptions C07_src_message_signature_is_model_msig.
 Print Assumptions C07_src_resolve_address_is_model_resolve.
 Print Assumptions C07_src_local_is_model_local_addr.
